@@ -234,6 +234,19 @@ func generated(a lib.Args) []RoundSpec {
 		d := genFailingPrepare(r.Fork(), []int{16, 12, 16, 8}[i%4], i%4 == 3, thorough)
 		out = append(out, RoundSpec{Kind: "db", DB: &d})
 	}
+	// combinations of Session options on the shared handle; concurrent readers through Joins("Rel")
+	nMix, nJoin := 4, 4
+	if thorough {
+		nMix, nJoin = 40, 40
+	}
+	for i := 0; i < nMix; i++ {
+		d := genSessMix(r.Fork(), []int{4, 8, 6, 12}[i%4], thorough)
+		out = append(out, RoundSpec{Kind: "db", DB: &d})
+	}
+	for i := 0; i < nJoin; i++ {
+		d := genJoinReaders(r.Fork(), []int{8, 16, 12, 4}[i%4], thorough)
+		out = append(out, RoundSpec{Kind: "db", DB: &d})
+	}
 	nBad := 2
 	if thorough {
 		nBad = 20
